@@ -11,8 +11,8 @@ RULES = [('irc', 'C18'), ('websocket', 'C17'), ('static serves', 'C16'), ('get_r
          ('_success for an event', 'C04'), ('generator handler raises is still finished', 'C04/C05/C06'),
          ('cancelled event', 'C05'), ('later steps of a generator', 'C05'), ('manual tick', 'C05'),
          ('done and timeout coincide', 'C06'), ('wait() that times out', 'C06'), ('exit code', 'C08'), ('does not return while events', 'C08'),
-         ('raises when resumed from call', 'C06'), ('catches timeouterror', 'C06'), ('stale waitevent closures', 'C06'), ('poller discard', 'C10'),
-         ('poll forgets', 'C10'), ('poll does not report', 'C10'), ('client._write', 'C11'), ('file._write', 'C11'),
+         ('raises when resumed from call', 'C06'), ('catches timeouterror', 'C06'), ('stale waitevent closures', 'C06'), ("_on_done does nothing once", 'C06'), ('poller discard', 'C10'),
+         ('epoll forgets', 'C12'), ('poll forgets', 'C10'), ('poll does not report', 'C10'), ('client._write', 'C11'), ('file._write', 'C11'),
          ('http drops the parser', 'C14'), ('negative chunk size', 'C14'), ('failing request or response handler', 'C14'), ('error responses carry', 'C14'),
          ('epoll', 'C12'), ('late write', 'C12'), ('_closeq', 'C12'), ('_buffers', 'C12')]
 FILES = [('circuits/node/', 'C19'), ('circuits/core/events.py', 'C19'), ('circuits/web/parsers/http.py', 'C13'),
